@@ -310,6 +310,7 @@ class FiltersSet:
                     negate = True
                 else:
                     comp_tag = c[3]
+                self.check_if_arg_is_extension(comp_tag)
                 cmd.check_next_arg("tag", comp_tag, check_extension=False)
                 next_arg_pos = 4
                 if comp_tag == ":value":
